@@ -284,6 +284,10 @@ static void xml_reporter_start_test(TestReporter *reporter, const char *testname
     reporter_start_test(reporter, testname);
 
     child_output_tmpfile = tmpfile();
+    if (child_output_tmpfile == NULL) {
+        fprintf(stderr, "could not create a temporary file for the results of %s\n", testname);
+        exit(EXIT_FAILURE);
+    }
     xmlOutputBufferPtr tmpfileBuf
         = xmlOutputBufferCreateFile(child_output_tmpfile,
                                     xmlGetCharEncodingHandler(XML_CHAR_ENCODING_UTF8));
